@@ -25,12 +25,18 @@ PROPERTY = 'C09'
 LEVEL = 'exploration'
 RULE = ('Hypothesis grammar of requests over WMS (GetMap / GetFeatureInfo / GetLegendGraphic / GetCapabilities), '
         'WMTS KVP and REST (with dimension path segments), TMS, /tiles, KML, demo and the MultiMapProxy app '
-        'prefix; every slot (dimension keys and values, layer, matrix set, tile indices, format, app name, '
-        'extra path segments) is filled either with a valid value or from an attacker dictionary (../ '
-        'sequences at each depth towards planted bait directories, absolute paths, ..\\, dot segments behind '
-        'valid prefixes, NUL, 5000-char values, non-ASCII, percent- and double-percent-encoded forms, '
-        'negative / 2^31 / 2^63 / 10^30 tile indices), against one configuration with 22 caches of all '
-        'local backends; thorough tier adds an atheris campaign on raw (path, query) bytes. '
+        'prefix; every slot (dimension names and values, layer, matrix set, tile indices, format, app name, '
+        'static path, headers, stray path segments) is filled either with a valid value or from an attacker '
+        'dictionary (../ sequences at each depth towards planted bait directories, absolute paths, ..\\, dot '
+        'segments behind valid prefixes, NUL, 5000-char values, non-ASCII look-alikes, percent- and '
+        'double-percent-encoded forms, negative / 2^31 / 2^63 / 10^30 / non-decimal tile indices), query strings '
+        'plainly, minimally or fully percent-encoded, against one configuration with 20 caches of all local '
+        'backends (file tc/mp/tms/reverse_tms/quadkey/arcgis, explicit directory, grid-name directories, '
+        'linked single-colour tiles, meta tiles, tile source, cache-as-source, sqlite, mbtiles, geopackage, '
+        'geopackage levels, compact v1/v2, disable_storage) and 31 layers with and without declared '
+        'dimensions, served by MapProxyApp and by MultiMapProxy; plus a deterministic escape matrix (the '
+        'canonical traversal through a dimension value and through a dimension name against every layer); '
+        'thorough tier adds an atheris campaign on raw (path, query) bytes with the same dictionary. '
         'Oracle: realpath (at event time) of every write-type audit event lies under the cache / lock '
         'directories of the caches the requested layers use, every read-type open / listdir under those or '
         'the static interpreter allow-list, and no bait content appears in the response. '
@@ -64,7 +70,8 @@ ELEV_VALUES = ['0', '1000', '3000']
 CUSTOM_VALUES = ['a', 'b', 'c.d']
 
 FILE_LAYOUTS = ['tc', 'mp', 'tms', 'reverse_tms', 'quadkey', 'arcgis']
-PATH_LAYOUTS = ('tc', 'mp', 'tms', 'reverse_tms')   # layouts whose tile path contains dimensions_part()
+PATH_LAYOUTS = tuple(FILE_LAYOUTS)   # bait tiles are planted in every layout (since /repo 6f7abe5 all six
+                                     # layouts put dimensions_part() into the tile path)
 
 
 # ------------------------------------------------------------------------------------------------
@@ -290,7 +297,7 @@ def _bait_tile_bytes(fmt, rgb=BAIT_RGB, mark=BAIT_MARK):
 
 
 def _bait_tile_paths(z_max=1):
-    """relative tile paths of all tiles of levels 0..z_max in the four dimension-aware layouts"""
+    """relative tile paths of all tiles of levels 0..z_max in every file-cache layout"""
     from mapproxy.cache import path as mpath
     from mapproxy.cache.tile import Tile
     out = set()
